@@ -1142,16 +1142,19 @@ def check(tier, seed):
         flagged = {idx for _, _, idx in res_b.problems}
         lookup = {tuple(normalise(c['line'])): (c['ops'], c['apriori'], c['kind']) for c in cmds}
         # the main loop as it ran: arrivals (what the reader had queued) and iterations, the ids handled per iteration
+        kind_of, nxt = {}, 0
+        for st in res_b.steps:
+            for j, flag in enumerate(st['scheduled'] or [False]):
+                kind_of[nxt + j] = flag
+            nxt += st['popped']
         evs, seen_ids, arrived_so_far, nxt = [], [], 0, 0
         for st in res_b.steps:
-            kinds = st['scheduled'] or [False]
-            while arrived_so_far < st['arrived']:
-                k = kinds[arrived_so_far - nxt] if 0 <= arrived_so_far - nxt < len(kinds) else False
-                evs.append(f'Arrive {"Scheduled" if k else "Immediate"} {arrived_so_far}')
+            while arrived_so_far < max(st['arrived'], nxt + st['popped']):
+                evs.append(f'Arrive {"Scheduled" if kind_of.get(arrived_so_far) else "Immediate"} {arrived_so_far}')
                 arrived_so_far += 1
             evs.append('Iterate')
             seen_ids.append(zlist(range(nxt, nxt + st['popped'])))
-            sched_hist['scheduled' if kinds[0] else 'immediate'] += 1
+            sched_hist['scheduled' if kind_of.get(nxt) else 'immediate'] += 1
             nxt += st['popped']
         if res_b.steps:
             sched_items.append(f'([{";".join(evs)}], [{";".join(seen_ids)}])')
